@@ -205,6 +205,8 @@ class State(object):
     self.entry_args = {}    # param name -> entry value (for old())
     self.choices = []       # results of extern calls on this path (name, value)
     self.bufs = {}          # BytesIO contents (byte algebra), keyed by the stream reference
+    self.maybe_final = False  # an object of a 'final' class may have been created on this path
+    self.wf_ids = set()     # ids of path-condition entries that are well-formedness facts (not branch decisions)
 
   def fork(self):
     s = State()
@@ -217,9 +219,18 @@ class State(object):
     s.entry_args = self.entry_args
     s.choices = list(self.choices)
     s.bufs = dict(self.bufs)
+    s.wf_ids = set(self.wf_ids)
+    s.maybe_final = self.maybe_final
     return s
 
   def assume(self, b):
     if z3.is_true(b):
       return
     self.pc.append(b)
+
+  def assume_wf(self, b):
+    """A fact about the heap that holds on every path (allocatedness, non-negative lengths)."""
+    if z3.is_true(b):
+      return
+    self.pc.append(b)
+    self.wf_ids.add(b.get_id())
